@@ -366,9 +366,15 @@ def explore_one(ctx, item):
     ctx.leg('shapes', **r)
 
 
+# the cheap legs run once more under the runner's ambient configurations (python -O, other logger levels)
+AMBIENT_LEGS = True
+
+
 def run(ctx):
     if ctx.tier == 'quick':
         items = [(s, ['p', 'q'], 4) for s in QUICK_SHAPES]
+        if ctx.small:
+            items = [(s, ['p', 'q'], 3) for s in QUICK_SHAPES[:3]]
     else:
         items = [(s, NAMES, 4) for s in SHAPES]
     par.pmap(ctx, explore_one, items, procs=ctx.procs)
